@@ -51,6 +51,7 @@ Hypothesis Hrep : forall b, P b -> P (DBatchRepeat b).
 Hypothesis Hperm : forall p, P (DPerm F p).
 Hypothesis Hcholof : forall up b, P b -> P (DCholOf up b).
 Hypothesis Hkkd : forall cf fs ds eig, allc P fs -> P (DKronAddedKronDiag cf fs ds eig).
+Hypothesis Hsk : forall fs1 fs2 eig, allc P fs1 -> allc P fs2 -> P (DSumKron fs1 fs2 eig).
 
 Fixpoint opd_ind' (o : opd) : P o :=
   let go := fix go (fs : seq opd) : allc P fs :=
@@ -72,6 +73,7 @@ Fixpoint opd_ind' (o : opd) : P o :=
   | DPerm p => Hperm p
   | DCholOf up b => Hcholof up (opd_ind' b)
   | DKronAddedKronDiag cf fs ds eig => Hkkd cf ds eig (go fs)
+  | DSumKron fs1 fs2 eig => Hsk eig (go fs1) (go fs2)
   end.
 End OpdInd.
 
@@ -698,7 +700,7 @@ Qed.
 
 (* ---------------------------------------------------------------- THE THEOREMS *)
 Lemma run_method_direct s (o : opd) m (B X : cols F) : run_method RA s o m B = Some X -> direct m.
-Proof. by case: o => [??|??|??|?|???|???|??|?|????|????|??|??|?|?|????|??]; rewrite /=; case: (direct m). Qed.
+Proof. by case: o => [??|??|??|?|???|???|??|?|????|????|??|??|?|?|????|??|???]; rewrite /=; case: (direct m). Qed.
 
 (* what op.solve(B) runs, as a function of B (no left factor) *)
 Lemma alg_solve_none s (o : opd) (B : cols F) :
@@ -761,7 +763,7 @@ Qed.
 (* the matrix of a well-formed operator is invertible (its Cholesky route solves every right-hand side) *)
 Lemma wfpd_unit (o : opd) : wfpd o -> mxo (osize o) (osize o) (dense_of RA o) \in unitmx.
 Proof.
-move=> wf; pose s0 := MkSettings 0 false 0 0 0 false false 0 0.
+move=> wf; pose s0 := MkSettings 0 false 0 0 0 false false 0 0 0 false false.
 have H v := sound_one v (plan_sound s0 false wf).
 by have [] := solver_unit H.
 Qed.
